@@ -12,6 +12,9 @@ import HappyProofs.C09.BulkheadSpec
 import HappyProofs.C09.ConcSpec
 import HappyProofs.C09.PoolDistinct
 import HappyProofs.C09.PoolProps2
+import HappyProofs.C09.EngineTrace
+import HappyProofs.C09.EngineTraceB
+import HappyProofs.C09.EngineTraceC
 /-!
 # C09 — property theorems
 
